@@ -12,7 +12,7 @@
 From Coq Require Import ZArith List Bool.
 From Common Require Import Res Str.
 From Routing Require Import Model Scheme Obs Spec Obs Proofs_Tables Proofs_Group Proofs_Merge Proofs_Library Proofs_Ops
-     Proofs_Routing Proofs_Witness Proofs_Frame Proofs_Sets Proofs_Scheme Proofs_Trace Proofs_Single.
+     Proofs_Routing Proofs_Witness Proofs_Frame Proofs_Sets Proofs_Scheme Proofs_Trace Proofs_Single Proofs_Examples.
 Import ListNotations.
 Open Scope Z_scope.
 
@@ -468,3 +468,50 @@ Theorem C09_log_methods : forall T P mx o log out,
   forall w m a, In (w, m, a) log -> In m (op_meths o) /\ (w = Mx <-> is_mixer_meth m = true).
 Proof. exact log_methods. Qed.
 Print Assumptions C09_log_methods.
+
+(* ---- non-vacuity: concrete populations satisfying the hypotheses above *)
+Theorem C09_ex_noninterference_nonvacuous :
+  differ_only_at 1 [pA; pB] [pA; pB'] /\
+  run [pA; pB] None (OLookup [(1, 1); (2, 1)])
+  = ([(Bk 0, MLookupMany, AUris [(1, 1)]); (Bk 1, MLookupMany, AUris [(2, 1)])],
+     Ok (VMap [((1, 1), [trk 1]); ((2, 1), [trk 2001])])) /\
+  run [pA; pB'] None (OLookup [(1, 1); (2, 1)])
+  = ([(Bk 0, MLookupMany, AUris [(1, 1)]); (Bk 1, MLookupMany, AUris [(2, 1)])],
+     Ok (VMap [((1, 1), [trk 1]); ((2, 1), [])])) /\
+  ~ owns b_lib [pA; pB] 1 (u_scheme (1, 1)) /\ owns b_lib [pA; pB] 1 (u_scheme (2, 1)).
+Proof. exact noninterference_nonvacuous. Qed.
+Print Assumptions C09_ex_noninterference_nonvacuous.
+
+Theorem C09_ex_routing_nonvacuous :
+  run [pA; pC; pD; pB] None (OLookup [(2, 1); (3, 1); (1, 1); (4, 1); (9, 9); (2, 1)])
+  = ([(Bk 3, MLookupMany, AUris [(2, 1); (2, 1)]); (Bk 0, MLookupMany, AUris [(1, 1)]);
+      (Bk 2, MLookupMany, AUris [(4, 1)])],
+     Ok (VMap [((2, 1), [trk 2001]); ((3, 1), []); ((1, 1), [trk 1]); ((4, 1), []); ((9, 9), [])])).
+Proof. exact routing_nonvacuous. Qed.
+Print Assumptions C09_ex_routing_nonvacuous.
+
+Theorem C09_ex_bad_answers_nonvacuous :
+  snd (run [pW] None (OBrowse (BUri (5, 1)))) = Ok (VList []) /\
+  snd (run [pW] None (OGetItems (5, 1))) = Ok VNone /\
+  snd (run [pW] None (OPlLookup (5, 1))) = Ok VNone /\
+  snd (run [pW] None (OSave (Some (5, 1)) 1)) = Ok VNone /\
+  snd (run [pW] None (ODelete (5, 1))) = Ok VRaw /\
+  snd (run [] (Some mxW) OGetVolume) = Ok VNone /\
+  snd (run [] (Some mxW) (OSetVolume 5)) = Ok (VBool false) /\
+  snd (run [] (Some mxW) OGetMute) = Ok VNone /\
+  snd (run [] (Some mxW) (OSetMute true)) = Ok (VBool false) /\
+  not_base (mxW XGetVolume AUnit) /\ volume_answer_ok (mxW XGetVolume AUnit) = false.
+Proof. exact bad_answers_nonvacuous. Qed.
+Print Assumptions C09_ex_bad_answers_nonvacuous.
+
+Theorem C09_ex_aggregates_nonvacuous :
+  run [lib [1] [(MSearch, RVal CSearch 1)]; lib [2] [(MSearch, RRaise KType)]; lib [3; 6] [(MSearch, RVal CSearch 3)]]
+      None (OSearch SQStr None true)
+  = ([(Bk 0, MSearch, ASearch SQGood None true); (Bk 1, MSearch, ASearch SQGood None true);
+      (Bk 2, MSearch, ASearch SQGood None true)],
+     Ok (VList [EObj CSearch 1 true; EObj CSearch 3 true])) /\
+  snd (run [lib [1; 2] [(MRoot, RVal CRef 1)]; lib [3] [(MRoot, RVal CTrack 2)]; lib [4] [(MRoot, RVal CRef 1)]]
+           None (OBrowse BNone)) = Ok (VList [EObj CRef 1 true]).
+Proof. exact aggregates_nonvacuous. Qed.
+Print Assumptions C09_ex_aggregates_nonvacuous.
+
